@@ -188,6 +188,11 @@ pub struct StepOut {
 }
 
 /// One public call on one object. `Err` = the schedule cannot be continued (contract / unbuildable).
+/// `--checked`: every schedule runs on a twin object as well, whose packets go through `checked_send` with their
+/// concrete types; the twin takes the place of the other shadow objects (C11 judges only this one).
+pub static CHECKED_TWIN: std::sync::atomic::AtomicBool = std::sync::atomic::AtomicBool::new(false);
+thread_local! { static USE_CHECKED: std::cell::Cell<bool> = std::cell::Cell::new(false); }
+
 pub fn do_call(c: &mut Box<dyn Conn>, call: &Call, pidmap: &mut HashMap<i64, i64>, wire: Option<&[u8]>) -> Result<StepOut, String> {
     let mut call = call.clone();
     if local_space(&call) {
@@ -206,7 +211,8 @@ pub fn do_call(c: &mut Box<dyn Conn>, call: &Call, pidmap: &mut HashMap<i64, i64
                 call.pkt.size = sz; // the size the library reports for what the application hands in
             }
             let p = call.pkt.clone();
-            catch(|| c.send(&p)).map(|r| {
+            let via_checked = USE_CHECKED.with(|f| f.get());
+            catch(|| if via_checked { c.send_checked(&p).map(|(ev, _)| ev) } else { c.send(&p) }).map(|r| {
                 r.map(|ev| (ev, call.clone()))
             })
         }
@@ -313,7 +319,9 @@ pub fn execute_from(trie: &mut Trie, src: &mut dyn Source, st: &mut Stats) {
         }
     };
     let mut main = new_conn(&c0.role, &c0.ver, c0.idw);
-    let mut shadow: Option<(&'static str, Box<dyn Conn>)> = None;
+    let checked_twin = CHECKED_TWIN.load(std::sync::atomic::Ordering::Relaxed);
+    let mut shadow: Option<(&'static str, Box<dyn Conn>)> =
+        if checked_twin { Some(("checked", new_conn(&c0.role, &c0.ver, c0.idw))) } else { None };
     let mut t = Track::new(&c0);
     let mut cur = 0usize;
     let mut done: Vec<Call> = vec![c0.clone()];
@@ -341,10 +349,12 @@ pub fn execute_from(trie: &mut Trie, src: &mut dyn Source, st: &mut Stats) {
             // shadow bookkeeping (same rules as MC_Endpoint.Next)
             let is_connect = call.pkt.kind == "connect" && (call.op == "send" || call.op == "recv");
             let cur_mode = shadow.as_ref().map(|s| s.0).unwrap_or("none");
-            let spawn_fresh = is_connect && t.ever_closed && t.conn == "disc" && cur_mode != "restored";
-            let spawn_fixed = is_connect && call.op == "recv" && main.version() == "undet"
+            let spawn_fresh = !checked_twin && is_connect && t.ever_closed && t.conn == "disc" && cur_mode != "restored";
+            let spawn_fixed = !checked_twin && is_connect && call.op == "recv" && main.version() == "undet"
                 && (call.pkt.ver == "v311" || call.pkt.ver == "v50") && !spawn_fresh;
-            if call.op == "crash" {
+            if checked_twin {
+                // the twin simply follows
+            } else if call.op == "crash" {
                 let m = &main;
                 let hf = call.flag;
                 match catch(|| m.restored_copy(hf)) {
@@ -379,7 +389,10 @@ pub fn execute_from(trie: &mut Trie, src: &mut dyn Source, st: &mut Stats) {
             let (mode, out_f, obs_f, panic_f) = if call.op == "crash" {
                 ("none", vec![], o.clone(), false)
             } else if let Some((mode, sh)) = shadow.as_mut() {
-                match do_call(sh, call, &mut t.pidmap_f, None) {
+                USE_CHECKED.with(|f| f.set(*mode == "checked"));
+                let rf = do_call(sh, call, &mut t.pidmap_f, None);
+                USE_CHECKED.with(|f| f.set(false));
+                match rf {
                     Ok(rf) => {
                         let (of, _) = obs_or_empty(sh);
                         (*mode, rf.out, of, rf.panic.is_some())
@@ -437,6 +450,9 @@ fn parse_calls(v: &Value) -> Option<Vec<Call>> {
 fn main() {
     let args: Vec<String> = std::env::args().collect();
     silence_panics();
+    if args.iter().any(|a| a == "--checked") {
+        CHECKED_TWIN.store(true, std::sync::atomic::Ordering::Relaxed);
+    }
     let out = arg(&args, "--out").unwrap_or_else(|| {
         eprintln!("--out required");
         std::process::exit(2)
